@@ -8,7 +8,10 @@
                p = passthrough, o = appends one output (id 100+position) to whatever the inner handler returned,
                r = copies the outputs into a fresh slice (empty but NON-NIL when there are none);
                lower case = router level (Router.AddMiddleware), upper case = handler level (Handler.AddMiddleware)
-        script <self>.<result>.<pub>   self: - a n    result: r<k> z0 e<k> c<k> pv pe pn    pub: ok err panic rej<k>
+        script <self>.<result>.<pub>   self: - a n Aw Al Nw Nl   result: r<k> z0 e<k> c<k> d<k> w<k> x<k> u<k> j<k> p<x>
+               pub: ok err panic rej<k>
+               (Aw/Al/Nw/Nl: the handler starts a helper goroutine that Acks/Nacks the message at the moment the Router
+                settles it the other way; w/l = what the helper's call returned, recorded by the harness – the model checks)
                (r0 = nil slice, z0 = empty NON-NIL slice; e = plain error, c = context.Canceled, both with k outputs
                 next to the error; rej<k> = the publisher refuses exactly the calls that contain output id k)
 
@@ -78,6 +81,9 @@ def PubSpec.verdict : PubSpec → List Nat → PubOutcome
 structure Script where
   o : Outcome Nat
   p : PubSpec
+  /-- `A`/`N` scripts: the handler's helper goroutine settles (ack/nack) concurrently with the Router; recorded outcome:
+      `true` = the helper's call returned true (its settlement came first) -/
+  race : Option (Settle × Bool) := none
 
 def parseSelf : String → Option (Option Settle)
   | "-" => some none | "a" => some (some .ack) | "n" => some (some .nack) | _ => none
@@ -102,6 +108,11 @@ def parseResult (s : String) : Option (Result Nat) :=
       | 'z' => if k = 0 then some (.returns [] false) else none
       | 'e' => some (.returns (List.range k) true)
       | 'c' => some (.returns (List.range k) true)
+      | 'd' => some (.returns (List.range k) true)   -- context.DeadlineExceeded
+      | 'w' => some (.returns (List.range k) true)   -- fmt.Errorf("%w", DeadlineExceeded)
+      | 'x' => some (.returns (List.range k) true)   -- pkg/errors.Wrap(context.Canceled)
+      | 'u' => some (.returns (List.range k) true)   -- custom error type
+      | 'j' => some (.returns (List.range k) true)   -- errors.Join(plain, DeadlineExceeded)
       | _ => none
     | none => none
   | _ => none
@@ -118,10 +129,16 @@ def parsePub (s : String) : Option PubSpec :=
 def parseScript (s : String) : Option Script :=
   match s.splitOn "." with
   | [a, b, c] => do
-    let se ← parseSelf a
     let r ← parseResult b
     let p ← parsePub c
-    pure ⟨⟨se, r⟩, p⟩
+    match a with
+    | "Aw" => pure ⟨⟨none, r⟩, p, some (.ack, true)⟩
+    | "Al" => pure ⟨⟨none, r⟩, p, some (.ack, false)⟩
+    | "Nw" => pure ⟨⟨none, r⟩, p, some (.nack, true)⟩
+    | "Nl" => pure ⟨⟨none, r⟩, p, some (.nack, false)⟩
+    | _ =>
+      let se ← parseSelf a
+      pure ⟨⟨se, r⟩, p, none⟩
   | _ => none
 
 /-! ## model observation -/
@@ -140,7 +157,7 @@ def retTok (k : Kind) : PubOutcome → String
   | .panic => "panic"
 
 /-- walk the effect list keeping the settlement state (Wm.Ack) of a message built by `NewMessage` -/
-def observeAux (d : DCfg) : Ack.St → List (Effect Nat) → List String
+def observeAux (d : DCfg) (showSelf : Bool := true) : Ack.St → List (Effect Nat) → List String
   | s, [] =>
     let both := s.ackCh = .closed ∧ s.nackCh = .closed
     [if both then "FB" else "F" ++ sentTok s.sent]
@@ -153,15 +170,33 @@ def observeAux (d : DCfg) : Ack.St → List (Effect Nat) → List String
       | none => s
     let here : List String := match e with
       | .handlerCalled => ["H"]
-      | .selfAck => ["a"]
-      | .selfNack => ["n"]
+      | .selfAck => if showSelf then ["a"] else []    -- a helper goroutine's settlement is not logged by the handler
+      | .selfNack => if showSelf then ["n"] else []
       | .publishCall t outs => if d.visible then ["P" ++ topicTok t ++ "/" ++ idsTok outs ++ "/" ++ sentTok s.sent] else []
       | .publishRet r => if d.visible then ["R" ++ retTok d.cfg.kind r ++ "/" ++ sentTok s.sent] else []
       | _ => []
-    here ++ observeAux d s' rest
+    here ++ observeAux d showSelf s' rest
 
 def modelObs (d : DCfg) (sc : Script) : String :=
-  ";".intercalate (observeAux d (Ack.initSt .new) (handleWith d.cfg (chain d.mws sc.o) sc.p.verdict))
+  match sc.race with
+  | none => ";".intercalate (observeAux d true (Ack.initSt .new) (handleWith d.cfg (chain d.mws sc.o) sc.p.verdict))
+  | some (s, won) =>
+    -- the helper's call lands right after the handler was entered (it came first) or right after the Router's settlement
+    let co := chain d.mws sc.o
+    let base := handle d.cfg ⟨none, co.result⟩ .accept
+    let pos := if won then 1 else base.length - 1
+    ";".intercalate (observeAux d false (Ack.initSt .new) (handleRace d.cfg co.result .accept s pos))
+
+/-- racing scripts: nothing is published (no outputs) and the helper settles the other way than the Router -/
+def raceOk (d : DCfg) (sc : Script) : Bool :=
+  match sc.race with
+  | none => true
+  | some (s, _) =>
+    match (chain d.mws sc.o).result with
+    | .returns [] false => s == .nack     -- Router acks
+    | .returns [] true => s == .ack       -- Router nacks
+    | .panics _ => s == .ack
+    | _ => false
 
 /-! ## property monitor: the statement of C02 evaluated on an observation -/
 
@@ -244,6 +279,16 @@ def monitor1 (d : DCfg) (sc : Script) (w : String) : String :=
     if o.hCount != 1 || !o.hFirst then return "violated:handler_invoked_once"
     -- settled exactly once
     if fin = "-" then return "violated:not_settled"
+    if let some (s, won) := sc.race then
+      -- the handler's own settlement (helper goroutine) raced the Router's opposite one: exactly one of them counts –
+      -- the helper's iff its call reported success – and Acked()/Nacked() are never both closed
+      if fin = "B" then return "violated:settled_twice"
+      if o.pubs.length > 0 then return "violated:published_on_error"
+      let own := if s == .ack then "a" else "n"
+      let other := if s == .ack then "n" else "a"
+      if won && fin != own then return "violated:self_settlement_overridden"
+      if !won && fin != other then return "violated:settlement_changed_after_it_was_decided"
+      return "ok"
     if fin = "B" then return "violated:settled_twice"
     let selfS : String := match sc.o.selfSettle with | none => "-" | some .ack => "a" | some .nack => "n"
     -- a settlement the handler made itself is never overridden
@@ -273,9 +318,9 @@ def zipAll (f : Script → String → String) : List Script → List String → 
 
 /-- a NoPublishHandlerFunc cannot return messages: requests that say otherwise are malformed -/
 def scriptsOk (d : DCfg) (scs : List Script) : Bool :=
-  d.cfg.kind != .disabled || scs.all (fun sc => match sc.o.result with
+  scs.all (raceOk d) && (d.cfg.kind != .disabled || scs.all (fun sc => match sc.o.result with
     | .returns outs _ => outs.isEmpty
-    | .panics _ => true)
+    | .panics _ => true))
 
 /-- `late` requests: validate the extra fields, then they are `run` requests -/
 def lateOk (how hold nEarly : String) (nScripts : Nat) : Bool :=
